@@ -168,7 +168,8 @@ func ruleReset(rule string) func(*Ctx) {
 			} else {
 				for _, ci := range calls(f) {
 					n := calleeName(c, ci)
-					if strings.HasPrefix(n, "(clipperBase).") && n != "(clipperBase).reset" && !precedes(rs[0], ci) {
+					// (dropping the previous run's leftovers first is harmless: clearSolutionOnly only empties lists)
+					if strings.HasPrefix(n, "(clipperBase).") && n != "(clipperBase).reset" && n != "(clipperBase).clearSolutionOnly" && !precedes(rs[0], ci) {
 						bad = n + " can run before reset()"
 					}
 				}
@@ -313,6 +314,65 @@ func checkProof(c *Ctx, typ, fld string, p resetProof) string {
 
 // ruleEdgeBuckets: NewRectClip64 makes K buckets; Execute's epilogue must truncate all K; tidyEdgePair is run for K/2 pairs.
 func ruleEdgeBuckets(c *Ctx, rule string) {
+	// The buckets may have been given a type of their own: `edges [N]pair{cw, ccw []*OutPt2}`. The count is then in
+	// the type and `range r.edges` covers all of it; what remains to be shown is that the routine run for every
+	// bucket after each path empties BOTH lists of the pair on EVERY path to its return.
+	if obj := c.tpkg.Scope().Lookup("RectClip64"); obj != nil {
+		if st, ok := obj.Type().Underlying().(*types.Struct); ok {
+			for i := 0; i < st.NumFields(); i++ {
+				arr, isArr := st.Field(i).Type().Underlying().(*types.Array)
+				if fieldAliasName(st.Field(i)) != "edges" || !isArr {
+					continue
+				}
+				elem, ok := arr.Elem().Underlying().(*types.Struct)
+				en := typeName(arr.Elem())
+				f := c.fn("(RectClip64).Execute")
+				bad := ""
+				if !ok {
+					bad = "edge buckets are an array of " + en + ", which is not a struct of lists"
+				}
+				var holders []*ssa.Function
+				for _, g := range append(freshRegion(c, f), c.fnOpt("(RectClip64).tidyEdgePair")) {
+					if g != nil && len(fieldStoresIn(c, g, en)) > 0 {
+						holders = append(holders, g)
+					}
+				}
+				if len(holders) == 0 && bad == "" {
+					bad = "no routine reached from Execute empties the " + en + " lists after a path"
+				}
+				for _, g := range holders {
+					for k := 0; ok && k < elem.NumFields(); k++ {
+						if _, isSl := elem.Field(k).Type().Underlying().(*types.Slice); !isSl {
+							continue
+						}
+						fn := elem.Field(k).Name()
+						if !mustStoreField(c, g, en, fn, map[*ssa.Function]int{}) {
+							bad = fmt.Sprintf("%s can return without having emptied %s.%s: entries of this path survive into the next one", c.fname(g), en, fn)
+						}
+						for _, stx := range fieldStoresIn(c, g, en)[fn] {
+							sl, isSlice := stx.Val.(*ssa.Slice)
+							k0, isK := (ssa.Value)(nil), false
+							if isSlice && sl.High != nil {
+								kc, okc := sl.High.(*ssa.Const)
+								isK = okc && kc.Int64() == 0
+								k0 = sl.High
+							}
+							_ = k0
+							if !isK {
+								if _, isMake := stx.Val.(*ssa.MakeSlice); !isMake {
+									bad = fmt.Sprintf("%s assigns %s.%s something other than an emptied list", c.fname(g), en, fn)
+								}
+							}
+						}
+					}
+				}
+				c.check(bad == "", rule, rule+":RectClip64.edges:bucket-count", f.Pos(), "(RectClip64).Execute",
+					fmt.Sprintf("the %d edge buckets are a fixed-size array of %s; both lists of a bucket are emptied on every path of the per-bucket routine", arr.Len(), en), bad,
+					"edge buckets are per-path scratch: a bucket that is not emptied feeds dangling points of the previous path into tidyEdgePair (panic, endless loop or foreign vertices)")
+				return
+			}
+		}
+	}
 	ctor := c.fn("NewRectClip64")
 	K := int64(-1)
 	for _, b := range ctor.Blocks {
